@@ -114,6 +114,16 @@ def run_item(item):
     else:
         model, pattern = gen_model(rng)
         text = corpus.blame_text(model)
+    mll = None
+    if kind != 'real' and rng.random() < 0.15:
+        # some lines longer than --max-line-length: cut (with the mark), still rows of their commit like the others
+        # (the metadata itself stays within the limit: a line cut before its ')' is no blame line any more)
+        prefix = max(len(x.encode('utf-8')) - len(l_['code'].encode('utf-8')) for x, l_ in zip(text.split('\n'), model))
+        mll = prefix + rng.choice([12, 40, 100])
+        for l_ in model:
+            if rng.random() < 0.4:
+                l_['code'] = (l_['code'].replace('\t', ' ') + ' ' + 'w0rd ' * 80)[:rng.choice([6, 30, 60, 150, 300])]
+        text = corpus.blame_text(model)
     palette = rng.choice(PALETTES)
     fmt_cls = rng.choice(['commit-author-time', 'time-commit', 'commit-only', 'author-commit', 'author-prec14', 'author-prec5'])
     fmt = {'commit-author-time': '{commit:<8}¦{author:<14}¦{timestamp:<16}', 'time-commit': '{timestamp:<16}¦{commit:<9}',
@@ -133,6 +143,9 @@ def run_item(item):
         opts['--syntax-theme'] = rng.choice(['Dracula', 'GitHub'])
     if rng.random() < 0.3:
         opts['--width'] = rng.choice([80, 120, 200])
+    if mll:
+        opts['--max-line-length'] = mll
+    in_lines = text.split('\n')
     args = gen.to_args(opts)
     delivery = rng.choice(['stdin', 'delta-git-blame'])
     if delivery == 'stdin':
@@ -188,7 +201,10 @@ def run_item(item):
         if kind == 'real':
             # git pads nothing after ')' but the code capture starts right after it
             exp_code = (' ' + l['code']).replace('\t', ' ' * tabs)
-        if code.rstrip(' ') != exp_code.rstrip(' ') or not code.startswith(exp_code.rstrip(' ')):
+        cut = mll is not None and i < len(in_lines) and len(in_lines[i].encode('utf-8')) > mll
+        if cut and code.rstrip(' ').endswith('→') and exp_code.startswith(code.rstrip(' ')[:-1].rstrip(' ')):
+            pass        # beyond the maximal line length: cut, with the mark
+        elif code.rstrip(' ') != exp_code.rstrip(' ') or not code.startswith(exp_code.rstrip(' ')):
             return bad('code', 'code of blame line %d is not shown unchanged' % (i + 1), exp_code, code)
         # number
         if sepcls == 'every':
